@@ -6,6 +6,14 @@ unset GOTOOLCHAIN
 cd /repo || exit 2
 out=$(mktemp /dev/shm/baseline.XXXXXX)
 go test -json -vet=off -count=1 -timeout 25m ./... > $out 2>/dev/null
+# actions.TestMessageStreamer_Go ("cancel with no messages") is timing-sensitive on a
+# loaded machine even on the untouched tree: give the actions package up to two more
+# runs and take the union of passes (the baseline itself was taken as 3 runs)
+for i in 1 2; do
+  if grep -q '"Action":"fail".*"Test":"TestMessageStreamer_Go' $out; then
+    go test -json -vet=off -count=1 -timeout 25m ./actions/ >> $out 2>/dev/null
+  fi
+done
 python3 - "$out" <<'PY'
 import json,sys
 passed=set()
